@@ -339,13 +339,17 @@ func Drive(ch *Check, tier string) int {
 		if perKind[v.Kind] >= 4 {
 			continue
 		}
-		if ch.Custom != nil {
-			// custom runners confirm their own findings
+		if ch.Custom != nil && ch.One == nil {
+			// custom runners without a single-case monitor confirm their own findings
 			perKind[v.Kind]++
 			confirmed = append(confirmed, v)
 			continue
 		}
-		pr := probe(env, ch, v.Case, fmt.Sprintf("v%d", len(seen)), CaseBudget(int64(len(v.Case.In)+len(v.Case.S)), 6))
+		budget := CaseBudget(int64(len(v.Case.In)+len(v.Case.S)), 6)
+		if ch.ProbeBudget > 0 {
+			budget = ch.ProbeBudget
+		}
+		pr := probe(env, ch, v.Case, fmt.Sprintf("v%d", len(seen)), budget)
 		ok := pr.died || pr.timedOut
 		for _, pv := range pr.viols {
 			if pv.Kind == v.Kind {
